@@ -4,7 +4,7 @@ histories (Proofs/Layer2.v, Proofs/Layer2Lp.v) + differential run of the real ms
 and keeper-level LP functions, evaluated inside Coq; spec checker on the real observations."""
 import json, os
 
-FILES = ["Base/Prelude.v", "Base/Dec.v", "Model/Layer2.v", "Model/C20Check.v", "Proofs/Layer2.v", "Proofs/Layer2Lp.v"]
+FILES = ["Base/Prelude.v", "Base/Dec.v", "Model/Layer2.v", "Model/C20Check.v", "Proofs/Layer2.v", "Proofs/Layer2Lp.v", "Proofs/Layer2Chk.v"]
 ORDER = ["user", "reject", "escrow", "frame", "total-sum", "max", "refund", "held", "pool-native", "lp-supply", "nofree-step", "nofree"]
 
 
@@ -32,6 +32,8 @@ def features(case, s, users):
     if op == "create":
         if st["name"] == "":
             return "empty-name"
+        if st["amt"] < 0:
+            return "negative-amount"
         if st["amt"] > maxthr:
             return "amount-above-max"
         return "none"
@@ -131,6 +133,9 @@ def run(R):
         out, mism, viol, total, cases, dist = obs
         R.oblige("correspondence: model = real msg server / EndBlocker / keeper-level LP functions on %d histories (%d steps)" % (total, dist["steps"]),
                  not mism, "first mismatching histories: " + json.dumps([cases[i] for i in mism[:2]])[:6000])
+        var = dist["variant"]
+        R.oblige("probes: the tree has none of the three repaired defects (the full-strength theorems are stated for [fixed v])",
+                 not (var["prefix_iteration"] or var["zero_record_blocks_refund"] or var["creation_bond_unchecked"]), json.dumps(var))
         report(R, obs)
         R.samples = [brief(cases[0], min(3, len(cases[0]["steps"]) - 1)), brief(cases[-1], min(3, len(cases[-1]["steps"]) - 1))]
         R.coverage.update({"latent_keeper_level_rounding_exploit_on_real_code": latent(cases), "traces_validated_against_impl": total, "steps_validated": dist["steps"], "input_distribution": dist})
